@@ -82,6 +82,10 @@ def parse(r):
         pass
     if m:
         r.generated = int(m.group(1)); r.distinct = int(m.group(2))
+    if not m:      # simulation mode reports only the number of states it generated
+        m2 = re.search(r"The number of states generated: (\d+)", o)
+        if m2:
+            r.generated = int(m2.group(1)); r.distinct = r.generated
     m = re.search(r"The depth of the complete state graph search is (\d+)", o)
     if m: r.depth = int(m.group(1))
     m = re.search(r"Invariant (\S+) is violated", o)
